@@ -122,7 +122,7 @@ func init() {
 				emit(map[string]interface{}{"k": "ending"})
 				agent.VerifYield = func(string) {}
 				agent.VerifYieldBlocked = func(string) {}
-				emit(map[string]interface{}{"k": "end", "act": map[string]interface{}{"a": "end", "dead": r.Deadlock || r.Hung || r.Aborted}, "obs": obs(0)})
+				emit(map[string]interface{}{"k": "end", "act": map[string]interface{}{"a": "end", "dead": r.Deadlock, "hung": r.Hung || r.Aborted}, "obs": obs(0)})
 			}
 			return onStep, finish
 		}
